@@ -24,6 +24,20 @@ CONFIGS_THOROUGH = ['sse2', 'sse2-fma', 'sse41', 'scalar', 'coresimd', 'neon', '
 QUATS = ('Quat', 'DQuat')
 
 
+def has_division(t):
+    seen = set()
+    st = [t]
+    while st:
+        x = st.pop()
+        if x.id in seen:
+            continue
+        seen.add(x.id)
+        if x.op in ('fdiv', 'recip', 'x86:rcp_approx', 'x86:rsqrt_approx'):
+            return True
+        st.extend(a for a in x.args if isinstance(a, tm.T))
+    return False
+
+
 def run(ctx):
     configs = ctx.need(CONFIGS_QUICK if ctx.tier == 'quick' else CONFIGS_THOROUGH)
     ctx.trusted = TRUSTED_COMMON + ['reference mathematics rules/spec.py (Hamilton product, conjugate, sandwich product)']
@@ -61,6 +75,8 @@ def run(ctx):
                 kind = 'lanewise'
             elif not tr and mname in ('dot', 'length_squared'):
                 kind = 'dot'
+            elif not tr and mname in ('length', 'length_recip', 'normalize'):
+                kind = 'norm'
             if kind is None:
                 continue
             r = H.run(it['key'])
@@ -128,6 +144,21 @@ def run(ctx):
                     if lanes is None or not S.eq(alg.nf(lanes[i]), e):
                         bad = 'component %s is not the component-wise operation' % 'xyzw'[i]
                         break
+            elif kind == 'norm':
+                ln = alg.sqrt_r(S.dot(q, q))
+                kres, oty, val = result_of(F, r, body)
+                lanes = value_lanes(F, val, oty) if val is not None and not isinstance(val, tm.T) else None
+                if mname == 'normalize':
+                    # glam_assert-free builds: q / |q| component-wise
+                    exp_l = [S.div(x, ln) for x in q]
+                    if lanes is None or not all(S.eq(alg.nf(l), e) for l, e in zip(lanes, exp_l)):
+                        bad = 'normalize is not q / sqrt(q.q) component-wise'
+                else:
+                    e = ln if mname == 'length' else S.div(S.c(1), ln)
+                    if not isinstance(r.ret, tm.T) or not S.eq(alg.nf(r.ret), e):
+                        bad = '%s is not %s' % (mname, 'sqrt(q.q)' if mname == 'length' else '1 / sqrt(q.q)')
+                    elif mname == 'length' and has_division(r.ret):
+                        bad = 'length divides (undefined at the zero quaternion, where sqrt(q.q) is 0)'
             elif kind == 'dot':
                 o = [alg.nf(a) for a in views[1].lanes] if mname == 'dot' else q
                 if not isinstance(r.ret, tm.T) or not S.eq(alg.nf(r.ret), S.dot(q, o)):
